@@ -185,7 +185,7 @@ func genC11(g *Gen) {
 	// end-to-end: filtered views (no '!' patterns here: the late-shadow behaviour of the incremental
 	// matcher (known finding K1) is judged by C10; with it walk and Open may legitimately differ)
 	pats := []string{"a", "b", "ab", "a-b", "c", "d", "e", "a/*", "a/**", "*", "**/a", "?", "a*", "*/b", "d/e", "[a-c]", "a/b"}
-	m := g.Vol(150, 3000)
+	m := g.Vol(600, 8000)
 	for i := 0; i < m; i++ {
 		r := g.Rng
 		o := TreeOpts{MaxEntries: 4 + r.Intn(12), MaxDepth: 3, Names: small, Types: r.Chance(30), HardLinks: true, Owners: true}
